@@ -200,7 +200,7 @@ var QuiesceTimeout = 60 * time.Second
 // and the 5 s Value send timeout. It returns the goroutines of the last dump and false if the watchdog fired.
 func Quiesce() ([]G, bool) {
 	deadline := time.Now().Add(QuiesceTimeout)
-	prev := ""
+	prev := "\x00" // never equal to a real signature: two dumps are always taken
 	spins := 0
 	for {
 		gs := Goroutines()
@@ -220,7 +220,7 @@ func Quiesce() ([]G, bool) {
 			runtime.Gosched()
 			continue
 		}
-		prev = ""
+		prev = "\x00"
 		spins++
 		if spins < 20 {
 			runtime.Gosched()
